@@ -24,4 +24,11 @@ def run(rep, db, tier, seed):
                         'the step from these enabling conditions to "a block is committed within a bounded number of views" is not mechanised']
     rep.bounds = dict(steps=1, committee='N = 2 (quick), 2..3 (thorough), symbolic weights', caches='<= 1 entry')
     RC.run_all(rep, db, tier, ('C06',))
+    # restart: nothing durable is lost (view / phase / high vote / certificates / cached proposals come back) — a replica that
+    # forgets a cached proposal on restart can no longer build the block its vote helped to certify
+    try:
+        from props import replica_start
+        replica_start.run(rep, db, tier)
+    except Exception as u:
+        rep.add(F.Obligation('restart restores the durable snapshot (StateMachine::start)', 'inconclusive', f'{type(u).__name__}: {u}'[:600]))
     rep.extra['explanation'] = 'local progress (retransmission / catch-up / view-entry) obligations on the real handler MIR; liveness itself is not decided'
